@@ -67,6 +67,9 @@ def classes_of(a, out):
             classes_of(y, out)
 
 
+LAYOUTS = [" ", "\n", " ", "\t", " ", " \r\n ", " ", "\n  "]
+
+
 def chain_items(n_ops, lo, hi):
     """token texts for chains number lo..hi (index into the product space)"""
     ops = INFIX
@@ -83,7 +86,8 @@ def chain_items(n_ops, lo, hi):
                         toks.append("not")
                     toks.append(op)
                     toks.append("bcde"[i])
-                yield " ".join(toks)
+                # the layout rotates with the index: blanks, line breaks, tabs, CR LF between the same tokens
+                yield LAYOUTS[idx % len(LAYOUTS)].join(toks)
             idx += 1
             if idx >= hi:
                 return
@@ -124,6 +128,8 @@ def flat_walk(rnd):
         t += ["?"] + seq(rnd.randint(0, 2)) + [":"] + seq(rnd.randint(0, 3))
         if rnd.random() < 0.3:
             t += ["?"] + seq(rnd.randint(0, 1)) + [":"] + seq(rnd.randint(0, 2))
+    if rnd.random() < 0.3:
+        return "".join(x + rnd.choice([" ", " ", "\n", "\t", "\r\n", "  ", "\n\n", " \n"]) for x in t).rstrip()
     return " ".join(t)
 
 
@@ -136,12 +142,14 @@ def run_shard(desc):
     if kind in ("chain2", "chain3"):
         for text in chain_items(2 if kind == "chain2" else 3, lo, hi):
             items.append((text, None))
+            if kind == "chain2" and " " in text:
+                items.append((text.replace(" ", "\n"), None))  # every 2-chain also with each token on its own line
     elif kind == "tree":
         tg = gen.TreeGen(rnd)
         for _ in range(hi - lo):
             t = tg.program(d=rnd.randint(1, 4))
             rr = ref.Renderer(rnd=rnd, extra_parens=rnd.choice([0, 0, 0.15]), trailing_comma=0.1)
-            text = ref.join_tokens(rr.tokens(t), rnd=rnd, compact=rnd.choice([0, 0.5, 1]))
+            text = ref.join_tokens(rr.tokens(t), rnd=rnd, compact=rnd.choice([0, 0.5, 1]), ws=gen.ws_maker(rnd) if rnd.random() < 0.3 else None)
             items.append((text, t))
     elif kind == "long":
         for _ in range(hi - lo):
